@@ -306,7 +306,7 @@ Section PagerProofs.
         * cbn. now rewrite Hs.
         * constructor; [now apply is_empty_false_iff|exact Hall].
         * exact Hl.
-        * cbn. now rewrite Hy.
+        * unfold yielded_pages in *. cbn [map app]. now rewrite Hy.
         * cbn [map]. rewrite Hc. reflexivity.
   Qed.
 
@@ -316,7 +316,7 @@ Section PagerProofs.
   Proof.
     induction init as [|p init IH]; intros st script last rest (Hs & Hall & Hl).
     - cbn in Hs. inversion Hs; subst. exists [st].
-      destruct script; cbn [run]; rewrite (proj2 (is_empty_iff _) Hl); reflexivity.
+      destruct rest; cbn [run]; rewrite (proj2 (is_empty_iff _) Hl); reflexivity.
     - cbn in Hs. inversion Hs as [[Hp Hscript]]. inversion Hall as [|x l Hne Hall']; subst.
       destruct init as [|q init].
       + cbn in *. destruct (IH (step last st) rest last rest) as (sts & R).
@@ -386,11 +386,11 @@ Section PagerProofs.
   Qed.
 
   (* sync and asyncio pagers agree *)
-  Lemma sync_async_agree (c : call) p0 script : iterate true c p0 script = iterate false c p0 script.
+  Lemma sync_async_agree (c : call) (p0 : page) (script : list page) : iterate true c p0 script = iterate false c p0 script.
   Proof. unfold iterate. destruct (run _ script); [|reflexivity]. now rewrite items_async_sync. Qed.
 
   (* the whole sentence about iteration, for every history and every request *)
-  Lemma pager_behaviour (b : bool) (c : call) p0 script o :
+  Lemma pager_behaviour (b : bool) (c : call) (p0 : page) (script : list page) o :
     iterate b c p0 script = Some o ->
     exists init last rest,
       splits_at_first_empty (p0 :: script) init last rest /\
@@ -399,21 +399,20 @@ Section PagerProofs.
       o_calls o = c :: map (threaded c) init /\
       o_final o = Some last.
   Proof.
-    rewrite <- (sync_async_agree c p0 script) || idtac.
     assert (Hb : iterate b c p0 script = iterate false c p0 script) by (destruct b; [apply sync_async_agree|reflexivity]).
     rewrite Hb. unfold iterate. destruct (run (mkState c p0) script) as [sts|] eqn:R; [|discriminate].
     intros H. inversion H; subst; clear H. cbn [o_pages o_items o_calls o_final].
     destruct (run_sound _ _ _ R) as (init & last & rest & Hs & Hy & Hc). cbn [st_resp st_call] in *.
-    exists init, last, rest. repeat split; try exact Hs.
-    - exact Hy.
+    exists init, last, rest.
+    split; [exact Hs|]. split; [exact Hy|]. split; [|split].
     - unfold items_sync. now rewrite Hy.
     - unfold followup_calls. destruct sts as [|s0 sts]; [destruct init; discriminate|].
       cbn [map] in Hc. inversion Hc. reflexivity.
-    - unfold pager_attrs. rewrite <- last_opt_map. fold (yielded_pages sts). rewrite Hy. apply last_opt_app.
+    - rewrite <- last_opt_map. change (map pager_attrs sts) with (yielded_pages sts). rewrite Hy. apply last_opt_app.
   Qed.
 
   (* conversely: whenever the history contains a page with an empty token the iteration is defined *)
-  Lemma pager_terminates (b : bool) (c : call) p0 script :
+  Lemma pager_terminates (b : bool) (c : call) (p0 : page) (script : list page) :
     Exists (fun p => p_token p = "") (p0 :: script) -> exists o, iterate b c p0 script = Some o.
   Proof.
     intros H. destruct (first_empty_exists _ H) as (init & last & rest & Hs).
@@ -421,7 +420,7 @@ Section PagerProofs.
     unfold iterate. rewrite R. eexists. reflexivity.
   Qed.
 
-  Lemma pager_undefined_iff (b : bool) (c : call) p0 script :
+  Lemma pager_undefined_iff (b : bool) (c : call) (p0 : page) (script : list page) :
     iterate b c p0 script = None <-> Forall nonempty_token (p0 :: script).
   Proof.
     rewrite <- (run_none_iff script (mkState c p0)). unfold iterate.
@@ -429,7 +428,7 @@ Section PagerProofs.
   Qed.
 
   (* named consequences *)
-  Lemma pager_items (b : bool) (c : call) p0 script o init last rest :
+  Lemma pager_items (b : bool) (c : call) (p0 : page) (script : list page) o init last rest :
     iterate b c p0 script = Some o -> splits_at_first_empty (p0 :: script) init last rest ->
     o_items o = concat (map p_items (init ++ [last])).
   Proof.
@@ -437,7 +436,7 @@ Section PagerProofs.
     destruct (split_unique _ _ _ _ _ _ _ Hs Hs') as (-> & -> & ->). exact Hi.
   Qed.
 
-  Lemma requests_threaded (b : bool) (c : call) p0 script o init last rest :
+  Lemma requests_threaded (b : bool) (c : call) (p0 : page) (script : list page) o init last rest :
     iterate b c p0 script = Some o -> splits_at_first_empty (p0 :: script) init last rest ->
     o_calls o = c :: map (fun p => mkCall (p_token p) (c_fields c) (c_opts c)) init.
   Proof.
@@ -445,7 +444,7 @@ Section PagerProofs.
     destruct (split_unique _ _ _ _ _ _ _ Hs Hs') as (-> & -> & ->). exact Hc.
   Qed.
 
-  Lemma stops_at_first_empty (b : bool) (c : call) p0 script o init last rest :
+  Lemma stops_at_first_empty (b : bool) (c : call) (p0 : page) (script : list page) o init last rest :
     iterate b c p0 script = Some o -> splits_at_first_empty (p0 :: script) init last rest ->
     o_pages o = init ++ [last] /\ length (o_calls o) = S (length init).
   Proof.
@@ -454,7 +453,7 @@ Section PagerProofs.
     rewrite Hc. cbn. now rewrite map_length.
   Qed.
 
-  Lemma attrs_of_last_page (b : bool) (c : call) p0 script o init last rest :
+  Lemma attrs_of_last_page (b : bool) (c : call) (p0 : page) (script : list page) o init last rest :
     iterate b c p0 script = Some o -> splits_at_first_empty (p0 :: script) init last rest ->
     o_final o = Some last.
   Proof.
